@@ -10,6 +10,7 @@ package props
 //                              not-a-fixpoint            (each prefixed q: sd: s: for the three entry points)
 
 import (
+	"regexp"
 	"fmt"
 	"os"
 	"sort"
@@ -214,6 +215,11 @@ func (c *Ctx) runFormatBatch(k fmtKind, inputs []string, st *fmtStats, tame ...b
 				// (theorem C13_description_newline_indent_counterexample)
 				sig = k.tag + ":description-changed-under-line-break-indent"
 			}
+			if k.tag == "s" && (p[0] == "tree-differs" || p[0] == "not-a-fixpoint" || p[0] == "reparse-fails") && preludeExtRe.MatchString(in) {
+				// recorded finding: FormatSchema skips the types of the prelude altogether, so what a schema
+				// added to one of them by `extend …` is not printed (theorem C13_schema_reload_needs_no_builtin_extension)
+				sig = "s:prelude-type-extension-lost"
+			}
 			st.rt[sig]++
 			if i < len(tame) && tame[i] {
 				st.rtTame[sig]++
@@ -223,6 +229,11 @@ func (c *Ctx) runFormatBatch(k fmtKind, inputs []string, st *fmtStats, tame ...b
 		}
 	}
 }
+
+// rootKindInputs: sources whose query root is not an object type.
+var rootKindInputs = []string{`scalar Query`, `enum Query { A }`, `type A { x: Int } union Query = A`}
+
+var preludeExtRe = regexp.MustCompile(`extend\s+(type|scalar|enum|interface|input|union)\s+(__\w+|String|Int|Float|Boolean|ID)\b`)
 
 func dropBuiltinCfgs(outs string, cfgs []string) string {
 	var keep []string
@@ -470,9 +481,8 @@ var fmtMinimalS = []string{
 	`directive @d on SCHEMA type Query { f: Int } extend schema @d`,
 	`type Query { f: Int } extend type Query { g: Int }`,
 	// a query root that is not an object type (the recorded C07 finding) gets __schema/__type, which the formatter hides but still brackets
-	`scalar Query`,
-	`enum Query { A }`,
-	`type A { x: Int } union Query = A`,
+	// (after the repair "a root operation type must be an object type" these no longer load; kept as inputs
+	// that must be REJECTED by the loader: see rootKindInputs)
 	// an extension of a type of the prelude: FormatSchema skips built-in types altogether
 	`type Query { a: Int } extend type __Type { extra: Int }`,
 	`type Query { a: Int } directive @x on SCALAR extend scalar String @x`,
